@@ -433,6 +433,10 @@ func (c *Cluster) hOffsetCommit(b *Broker, r *Request, act *Action) map[string]a
 	c.mu.Lock()
 	defer c.mu.Unlock()
 	code := int64(act.ErrorCode)
+	partial := int64(0)
+	if act.ErrorSkipFirst {
+		code, partial = 0, int64(act.ErrorCode)
+	}
 	g := c.groupLocked(gid)
 	if code == 0 {
 		switch {
@@ -450,10 +454,13 @@ func (c *Cluster) hOffsetCommit(b *Broker, r *Request, act *Action) map[string]a
 		tm := obj(tv)
 		name := str(tm, "Name")
 		var parts []any
-		for _, pv := range arr(tm, "Partitions") {
+		for pi, pv := range arr(tm, "Partitions") {
 			pm := obj(pv)
 			pid := int32(i64(pm, "PartitionIndex"))
 			pc := code
+			if pc == 0 && partial != 0 && pi > 0 {
+				pc = partial
+			}
 			if pc == 0 && c.partitionLocked(name, pid) == nil {
 				pc = ErrUnknownTopicOrPartition
 			}
